@@ -40,6 +40,8 @@ type c08Spec struct {
 	// tmplBase != "": the task's dir is the TEMPLATE tmplBase+"/{{ .x }}": every execution runs in the directory
 	// named by the value of x it sees (the stage's over the task's)
 	tmplBase string
+	// directFirst: the task is also run directly BEFORE the pipeline (and again after it)
+	directFirst bool
 }
 
 func kvs(m map[string]string) string {
@@ -239,6 +241,9 @@ func runC08Spec(s c08Spec) (lines []string, crashed string) {
 		return nil, err.Error()
 	}
 	r.Stdout, r.Stderr = devNull{}, devNull{}
+	if s.directFirst {
+		r.Run(shared)
+	}
 	for k := 0; k < s.runs; k++ {
 		for _, st := range g.Nodes() {
 			st.UpdateStatus(scheduler.StatusWaiting)
@@ -261,7 +266,7 @@ func runC08Spec(s c08Spec) (lines []string, crashed string) {
 func c08Case(col *Collector, s c08Spec, tag string) {
 	lines, crashed := runC08Spec(s)
 	cwd, _ := os.Getwd()
-	cs := Case{Replay: s.line() + fmt.Sprintf(" yaml=%v runs=%d", s.viaYAML, s.runs), Tags: []string{tag, fmt.Sprintf("stages=%d", len(s.stages))}}
+	cs := Case{Replay: s.line() + fmt.Sprintf(" yaml=%v runs=%d direct-run-first=%v", s.viaYAML, s.runs, s.directFirst), Tags: []string{tag, fmt.Sprintf("stages=%d", len(s.stages))}}
 	if s.tmplBase != "" {
 		cs.Replay += " task dir = <base>/{{ .x }} (a template over the variable x)"
 		cs.Tags = append(cs.Tags, "templated-dir")
@@ -283,6 +288,9 @@ func c08Case(col *Collector, s c08Spec, tag string) {
 			n := s.runs
 			if i < 0 {
 				n = 1
+				if s.directFirst {
+					n = 2
+				}
 			}
 			if len(got[who]) != n && cs.Fail == "" {
 				cs.Fail, cs.Sig = fmt.Sprintf("%s executed %d times, expected %d", who, len(got[who]), n), "c08-count"
@@ -300,7 +308,7 @@ func c08Case(col *Collector, s c08Spec, tag string) {
 		}
 	}
 	cs.Impl = strings.Join(impl, " | ")
-	if crashed == "" && s.runs == 1 && s.tmplBase == "" {
+	if crashed == "" && s.runs == 1 && s.tmplBase == "" && !s.directFirst {
 		// canonical form compared with the Lean model: what every stage execution and the direct run saw
 		canon := func(l string) string {
 			f := map[string]string{}
@@ -409,8 +417,73 @@ func stageCopyStressCase(col *Collector, d time.Duration) {
 	col.Add(cs)
 }
 
+// a stage that FAILS (and does not allow failure) ends its pipeline; what it overrode must not stay on the task: a
+// second pipeline on the same task, and a direct run, see the task's own settings
+func failedStageLeakCase(col *Collector, variant int) {
+	trace := newTracePath()
+	defer os.Remove(trace)
+	cs := Case{Tags: []string{"failed-stage"}, NonTrivial: true,
+		Replay: fmt.Sprintf("stage s0 of pipeline p1 overrides env A, variable x and dir and fails without allow_failure (variant %d: 0 command exits 3, 1 undefined variable, 2 before hook fails); then pipeline p2 (stage q0, no overrides) and a direct run of the same task", variant)}
+	shared := task.NewTask()
+	shared.Name = "shared"
+	shared.Commands = []string{fmt.Sprintf(c08Cmd, trace)}
+	shared.Env = variables.FromMap(map[string]string{"A": "task-A"})
+	shared.Variables = variables.FromMap(map[string]string{"x": "task-x"})
+	env0 := map[string]string{"WHO": "s0", "A": "s0-A", "B": "s0-B", "FAILSTAGE": "3"}
+	vars0 := map[string]string{"x": "s0-x", "y": "s0-y"}
+	switch variant {
+	case 1:
+		delete(env0, "FAILSTAGE")
+		shared.Commands = append(shared.Commands, "echo {{ .OnlyLater }}")
+	case 2:
+		delete(env0, "FAILSTAGE")
+		shared.Before = []string{"test -z \"$B\""} // fails only where B is set: in stage s0
+	}
+	s0 := &scheduler.Stage{Name: "s0", Task: shared, Env: variables.FromMap(env0), Variables: variables.FromMap(vars0), Dir: os.TempDir()}
+	q0 := &scheduler.Stage{Name: "q0", Task: shared, Env: variables.FromMap(map[string]string{"WHO": "q0"})}
+	if variant == 1 {
+		q0.Variables = variables.FromMap(map[string]string{"OnlyLater": "now"})
+	}
+	g1, err1 := scheduler.NewExecutionGraph(s0)
+	g2, err2 := scheduler.NewExecutionGraph(q0)
+	r, err3 := runner.NewTaskRunner()
+	if err1 != nil || err2 != nil || err3 != nil {
+		cs.Fail, cs.Sig = fmt.Sprint(err1, err2, err3), "c08-crash"
+		col.Add(cs)
+		return
+	}
+	r.Stdout, r.Stderr = devNull{}, devNull{}
+	sd := scheduler.NewScheduler(r)
+	sd.VerifSetPause(time.Millisecond)
+	e1 := sd.Schedule(g1)
+	sd.Schedule(g2)
+	if variant == 1 {
+		shared.Variables.Set("OnlyLater", "direct")
+	}
+	r.Run(shared)
+	cwd, _ := os.Getwd()
+	var got []string
+	for _, l := range readWhoTrace(trace) {
+		if strings.HasPrefix(l, "who=q0") || strings.HasPrefix(l, "who=direct") {
+			got = append(got, l)
+		}
+	}
+	want := []string{fmt.Sprintf("who=q0 A=task-A B= x=task-x y= pwd=%s", cwd), fmt.Sprintf("who=direct A=task-A B= x=task-x y= pwd=%s", cwd)}
+	cs.Impl = strings.Join(got, " | ")
+	switch {
+	case e1 == nil:
+		cs.Fail, cs.Sig = "the first pipeline did not fail (the scenario needs a failing stage)", "c08-crash"
+	case strings.Join(got, " | ") != strings.Join(want, " | "):
+		cs.Fail, cs.Sig = fmt.Sprintf("after the failed stage the later executions saw [%s], the task's own settings give [%s]", cs.Impl, strings.Join(want, " | ")), "c08-leak"
+	}
+	col.Add(cs)
+}
+
 func runC08(col *Collector, tier string, seed int64) {
 	withEnvCase(col)
+	for v := 0; v < 3; v++ {
+		failedStageLeakCase(col, v)
+	}
 	stageCopyStressCase(col, map[bool]time.Duration{false: 2 * time.Second, true: 12 * time.Second}[tier == "thorough"])
 	varsOpsCases(col, rand.New(rand.NewSource(seed+808)), map[bool]int{false: 200, true: 3000}[tier == "thorough"], "c08-leak")
 	rng := rand.New(rand.NewSource(seed))
@@ -438,6 +511,7 @@ func runC08(col *Collector, tier string, seed int64) {
 	}
 	var specs []c08Spec
 	var tags []string
+	mkCount := 0
 	mk := func(n int, deps [][]int, yaml bool, runs int) c08Spec {
 		s := c08Spec{taskEnv: pick([]string{"A", "B"}, "task"), taskVars: pick([]string{"x", "y"}, "task"), viaYAML: yaml, runs: runs}
 		if rng.Intn(2) == 0 {
@@ -458,6 +532,8 @@ func runC08(col *Collector, tier string, seed int64) {
 			o.fail = rng.Intn(4) == 0
 			s.stages = append(s.stages, o)
 		}
+		mkCount++
+		s.directFirst = mkCount%3 == 0 // (a counter, not a draw: the sample of everything else stays what it was)
 		if rng.Intn(4) == 0 {
 			// the task's dir is a template over x; x names one of the prepared directories at every level that sets it
 			s.tmplBase, s.taskDir = base, ""
